@@ -309,6 +309,27 @@ theorem charIter_bounded (enc : NameStr.Encoding) (d : List Nat) :
 
 
 
+/-- the step model of `CharIter` and the list model of check C18 (`NameStr.decodeString`, whose round-trip theorems
+are in Props/C18.lean) describe the same function -/
+theorem charIter_agrees_with_C18 (enc : NameStr.Encoding) (d : List Nat) (hm : d.length + 2 ≤ MAXU)
+    (hb : ∀ b ∈ d, b < 256) :
+    ∃ evs, charTrace enc d = some evs ∧ items evs = NameStr.decodeString enc d := by
+  obtain ⟨evs, he, _, _, _, ht⟩ := charIter_bounded enc d
+  refine ⟨evs, he, ?_⟩
+  have ht := ht hm hb
+  unfold charTrace at he
+  cases enc with
+  | utf16be => simpa [NameStr.decodeString] using charRun_utf16 d _ 0 evs (by omega) he ht
+  | macRoman => simpa [NameStr.decodeString] using charRun_mac d hb _ 0 evs (by omega) he ht
+  | unknown =>
+    have h0 := (charIter_bounded .unknown d)
+    obtain ⟨evs', he', _, hn, _⟩ := h0
+    unfold charTrace at he'
+    rw [he] at he'; injection he' with he'; subst he'
+    simp only [charNu] at hn
+    simp [NameStr.decodeString]
+    exact List.eq_nil_of_length_eq_zero (by omega)
+
 /-- `NameRecord::string` / `LangTagRecord::lang_tag`: a slice handed out lies inside the storage data and has the
 record's length; `start + length` cannot overflow for `u16` fields -/
 theorem nameSlice_spec (dataLen off len : Nat) :
